@@ -86,6 +86,14 @@ RFam == { Sub(RMod, One), RMod, Add(RMod, One), Sub(Add(RMod, RMod), One), Add(R
 XFam == LET x == XAbs  x2 == Mul(x, x)  x3 == Mul(x2, x) IN
         { Sub(x, One), x, Add(x, One), Sub(x2, One), x2, Add(x2, One), Sub(x3, One), x3, Add(x3, One),
           Mul(x3, Sub(x, One)), Sub(Mul(x3, x), One), Mul(x3, FromNat(65535)) }
+\* digit patterns of the base-|x| decomposition c0 + c1|x| + c2|x|^2 + c3|x|^3 (after at most one subtraction of r): every digit
+\* at 0 / 1 / |x|-1, with and without the subtraction, and a top digit that exceeds |x| (scalars >= r + |x|^4, i.e. about 2r)
+DigitVal(d) == Add(Add(d[1], Mul(d[2], XAbs)), Add(Mul(d[3], Mul(XAbs, XAbs)), Mul(d[4], Mul(XAbs, Mul(XAbs, XAbs)))))
+DigitChoices == { Zero, One, Sub(XAbs, One) }
+DigitFamFull == { s \in { Add(IF b = 1 THEN RMod ELSE Zero, DigitVal(<<d0, d1, d2, d3>>)) : b \in {0, 1}, d0 \in DigitChoices, d1 \in DigitChoices, d2 \in DigitChoices,
+                                                                                         d3 \in DigitChoices \cup { XAbs, Add(XAbs, FromNat(5)) } } : Lt(s, Pow2(256)) }
+DigitFamCore == { s \in { Add(IF b = 1 THEN RMod ELSE Zero, DigitVal(<<d0, d1, Zero, d3>>)) : b \in {0, 1}, d0 \in { Zero, Sub(XAbs, One) }, d1 \in { Zero, FromNat(5) },
+                                                                                          d3 \in { One, Sub(XAbs, One), XAbs, Add(XAbs, FromNat(5)) } } : Lt(s, Pow2(256)) }
 Scalars(bits) ==
   { s \in { Zero, One, Two, FromNat(15), FromNat(16), FromNat(17), FromNat(31), FromNat(32), FromNat(33) }
           \cup UNION { Near(k, Js) : k \in { kk \in {32, 64, 128, 192, 255, 256, 384, 511} : kk < bits } }
@@ -115,12 +123,14 @@ ScalarCases(g) ==
                       n \in { <<0, 0>>, <<1, 0>>, <<0, 1>>, <<1, 1>> }, al \in {0, 1} })
       ELSE SetToSeq({ [op |-> "mul.powx", g |-> 2, base |-> b.base, affine |-> 0, k |-> Pad(s, 32), alias |-> al, api |-> "cpp", src |-> "gen"] :
                       b \in { bb \in Bases(g) : bb.sub = 1 /\ bb.affine = 0 },
-                      s \in { Zero, One, Sub(RMod, One), RMod, Sub(Pow2(256), One), XAbs, Mul(XAbs, Mul(XAbs, XAbs)), ModPow2(Mul(Rnd(901), Rnd(951)), 256) }, al \in {0, 1} }))
+                      s \in { Zero, One, Sub(RMod, One), RMod, Sub(Pow2(256), One), XAbs, Mul(XAbs, Mul(XAbs, XAbs)), ModPow2(Mul(Rnd(901), Rnd(951)), 256) }, al \in {0, 1} })
+           \o SetToSeq({ [op |-> "mul.fast", g |-> 2, base |-> b.base, affine |-> b.affine, k |-> Pad(s, 32), alias |-> 0, api |-> "cpp", src |-> "gen"] :
+                         b \in { bb \in Bases(g) : bb.sub = 1 /\ bb.affine = 0 }, s \in DigitFamCore }))
      \* note: the statically dispatched 256-bit "multiply" is the accelerated routine and is only fed subgroup bases by the replayer filter below
 RecodeCases ==
   SetToSeq(UNION { { [op |-> "wnaf.recode", bits |-> bw[1], window |-> bw[2], k |-> Pad(s, bw[1] \div 8), src |-> "gen"] : s \in Scalars(bw[1]) } :
              bw \in { <<64, 2>>, <<64, 4>>, <<128, 4>>, <<256, 4>>, <<256, 2>>, <<512, 4>> } })
-  \o SetToSeq({ [op |-> "powx.decompose", k |-> Pad(s, 32), src |-> "gen"] : s \in Scalars(256) })
+  \o SetToSeq({ [op |-> "powx.decompose", k |-> Pad(s, 32), src |-> "gen"] : s \in Scalars(256) \cup DigitFamFull })
 
 Fits(c) == c.op # "wnaf.recode" \/ Lt(Norm(c.k), Pow2(c.bits))
 Cases == IF What = "points" THEN PointCases(1) \o PointCases(2)
